@@ -82,14 +82,22 @@ static void hl_one(const char *s, size_t n, int mode, int tld, int have_allow, i
     eav_t *e = fresh_eav(0xA5);
     int sr, ret;
     const char *msg;
+    /* tld_check and allow_tld are plain settings read at validation time (C13: the outcome is a function of the confirmed mode and the
+     * *current* tld_check / allow_tld): every other call assigns them only after eav_setup, which ran under the opposite tld_check */
+    static unsigned order_ctr = 0;
+    int late_settings = (order_ctr++ & 1) && !getenv("VERIF_SETTINGS_BEFORE_SETUP");
     g_stage = "eav_init";
     eav_init(e);
     e->rfc = (EAV_RFC)mode;
-    e->tld_check = tld ? true : false;
-    if (have_allow) e->allow_tld = allow;
+    e->tld_check = (late_settings ? !tld : tld) ? true : false;
+    if (have_allow && !late_settings) e->allow_tld = allow;
     g_stage = "eav_setup";
     sr = eav_setup(e);
     if (sr != 0) { printf("[-1,%d]", sr); eav_free(e); free(e); return; }
+    if (late_settings) {
+        e->tld_check = tld ? true : false;
+        if (have_allow) e->allow_tld = allow;
+    }
     g_stage = "eav_is_email";
     ret = eav_is_email(e, s, n);
     g_stage = "eav_errstr";
